@@ -64,6 +64,20 @@ def parse_texts():
         T.append(b'[' * d + b'[],1' + b'],1' * (d - 1) + b']')      # every level has a trailing sibling
         T.append(b'[' * d + b']' * (d - 1))
         T.append(b'[{"a":' * (d // 2) + b'0' + b'}]' * (d // 2))
+    # the repository's own example documents (realistic mixes), their truncations and seeded single-byte corruptions
+    import glob, random
+    rnd = random.Random(12345)
+    for f in sorted(glob.glob('/repo/tests/inputs/test*')):
+        try:
+            d = open(f, 'rb').read()
+        except OSError:
+            continue
+        if len(d) == 0 or len(d) > 1000:
+            continue
+        T.append(d); T.append(d[:-1]); T.append(d[:len(d) // 2])
+        for _ in range(6):
+            i = rnd.randrange(len(d)); c = rnd.choice(b'[]{},:"\\ 1e-.\x00\xc3')
+            T.append(d[:i] + bytes([c]) + d[i + 1:]); T.append(d[:i] + d[i + 1:])
     return sorted(set(t for t in T if t is not None))
 
 
